@@ -168,8 +168,14 @@ vp_write_crlf(&mut *self.0)
 try_into
 //@@ =>
 vp_try_into_hv
+//@@ splice after_stmt
+headers.insert(
+//@@ with
+    proof { filt::lemma_insert_effect(hm_view(old(headers)), key_view(header), value); }
 //@@ contract
     ensures
+        res is Ok ==> field_vals(final(headers), key_view(header)).len() == 1 && hv_bytes(&field_vals(final(headers), key_view(header))[0]) == into_hv_bytes(value), // id: name_has_exactly_the_new_value [C16,C07,C08]
+        forall|o: Seq<u8>| o != key_view(header) ==> #[trigger] field_vals(final(headers), o) == field_vals(old(headers), o), // id: other_names_untouched [C16]
         res is Ok ==> exists|v: HeaderValue| hv_bytes(&v) == into_hv_bytes(value) // id: set_replaces_all_values_of_the_name [C16,C07,C08]
             && hm_view(final(headers)) == without(hm_view(old(headers)), key_view(header)).push((key_view(header), v)),
         res is Err ==> hm_view(final(headers)) == hm_view(old(headers)), // id: failed_set_changes_nothing [C16]
@@ -200,12 +206,18 @@ pub fn vp_entry_or_insert<H: IntoHeaderName>(headers: &mut HeaderMap, header: H,
 try_into
 //@@ =>
 vp_try_into_hv
+//@@ splice after_stmt
+vp_entry_or_insert(
+//@@ with
+    proof { filt::lemma_push_effect(hm_view(old(headers)), key_view(header), value); }
 //@@ rw R1
 headers.entry(header).or_insert(value);
 //@@ =>
 vp_entry_or_insert(headers, header, value);
 //@@ contract
     ensures
+        res is Ok ==> forall|o: Seq<u8>| o != key_view(header) ==> #[trigger] field_vals(final(headers), o) == field_vals(old(headers), o), // id: other_names_untouched [C16]
+        res is Ok && field_vals(old(headers), key_view(header)).len() == 0 ==> field_vals(final(headers), key_view(header)).len() == 1,
         res is Ok && field_vals(old(headers), key_view(header)).len() > 0 ==> hm_view(final(headers)) == hm_view(old(headers)), // id: default_not_added_when_caller_supplied_one [C16]
         res is Ok && field_vals(old(headers), key_view(header)).len() == 0 ==> exists|v: HeaderValue| hv_bytes(&v) == into_hv_bytes(value) // id: default_added_only_when_missing [C16]
             && hm_view(final(headers)) == hm_view(old(headers)).push((key_view(header), v)),
@@ -241,11 +253,10 @@ vp_hn_host()
 let host =
 //@@ with
     broadcast use group_into_hv;
-    broadcast use filt::lemma_insert_effect;
 //@@ contract
     ensures
         res is Ok ==> host_is_for(final(headers), url), // id: exactly_one_host_field_for_this_url [C08,C10]
-        res is Ok ==> without(hm_view(final(headers)), host_name()) == without(hm_view(old(headers)), host_name()), // id: other_fields_untouched [C10,C16]
+        forall|o: Seq<u8>| o != host_name() ==> #[trigger] field_vals(final(headers), o) == field_vals(old(headers), o), // id: other_fields_untouched [C10,C16]
         res is Err ==> hm_view(final(headers)) == hm_view(old(headers)),
 //@@ end
 
@@ -331,7 +342,6 @@ pub open spec fn request_line_ok(m: Seq<u8>, url: &Url, via_proxy: bool, line: S
 }
 
 impl<B: Body> PreparedRequest<B> {
-    pub closed spec fn sp_body(&self) -> B { self.body }
 //@@ fn src/request/mod.rs impl<B:~Body>~PreparedRequest<B> write_request props=C07,C08,C10
 //@@ rw R1
 BufWriter::new(writer)
@@ -467,13 +477,14 @@ vp_hn_accept_encoding()
 if self.base_settings.allow_compression {
 //@@ with
         broadcast use group_into_hv;
-        broadcast use filt::lemma_insert_effect;
 //@@ contract
         ensures
             res is Ok && old(self).sp_settings().allow_compression ==> field_vals(&final(self).sp_headers(), ae_name()).len() == 1 // id: accept_encoding_announced_when_compression_allowed [C16,C06]
                 && hv_bytes(&field_vals(&final(self).sp_headers(), ae_name())[0]) == str_bytes("gzip, deflate"@),
             res is Ok && !old(self).sp_settings().allow_compression ==> final(self).sp_headers() == old(self).sp_headers(), // id: not_announced_when_compression_disallowed [C16,C06]
             final(self).sp_settings() == old(self).sp_settings(), final(self).sp_method() == old(self).sp_method(), final(self).sp_url() == old(self).sp_url(),
+            final(self).sp_body() == old(self).sp_body(),
+            forall|o: Seq<u8>| o != ae_name() ==> #[trigger] field_vals(&final(self).sp_headers(), o) == field_vals(&old(self).sp_headers(), o), // id: only_accept_encoding_touched [C16]
 //@@ end
 }
 
@@ -509,7 +520,7 @@ loop
                 redirections <= self.base_settings.max_redirections, // id: at_most_max_redirections_followed [C09]
                 self.sp_settings() == old(self).sp_settings(), self.sp_method() == old(self).sp_method(), // id: method_and_settings_identical_on_every_hop [C10]
                 self.sp_body().octets() == old(self).sp_body().octets(), self.sp_body().kind_spec() == old(self).sp_body().kind_spec(), // id: body_identical_on_every_hop [C10]
-                without(hm_view(&self.sp_headers()), host_name()) == without(hm_view(&old(self).sp_headers()), host_name()), // id: callers_header_fields_preserved_on_every_hop [C10]
+                forall|o: Seq<u8>| o != host_name() ==> #[trigger] field_vals(&self.headers, o) == field_vals(&old(self).headers, o), // id: callers_header_fields_preserved_on_every_hop [C10]
                 old(self).sp_settings().max_redirections < u32::MAX,
             decreases self.base_settings.max_redirections - redirections, // id: each_followed_redirect_uses_up_budget [C09,C05]
 //@@ splice after_stmt
@@ -540,6 +551,6 @@ url = self.base_redirect_url(
         ensures
             res matches Ok(resp) ==> (!old(self).sp_settings().follow_redirects || !is_followed_status(status_u16(resp.sp_status()))), // id: returned_response_is_not_a_followable_redirect [C09]
             final(self).sp_settings() == old(self).sp_settings(), final(self).sp_method() == old(self).sp_method(), // id: request_unchanged_by_sending [C10,C16]
-            without(hm_view(&final(self).sp_headers()), host_name()) == without(hm_view(&old(self).sp_headers()), host_name()),
+            forall|o: Seq<u8>| o != host_name() ==> #[trigger] field_vals(&final(self).sp_headers(), o) == field_vals(&old(self).sp_headers(), o),
 //@@ end
 }
